@@ -120,6 +120,8 @@ def M1(inp, n):
         reg = [(k, nd.id) for k, nd in tr.registry]
         cl['transport_registry_follows'] = reg == [('add' if rk == 'add' else 'drop', rid)]
         cl['tables_follow'] = (Node(rid) in get(o, 'raftNextIndex')) == (rk == 'add') and (Node(rid) in get(o, 'raftMatchIndex')) == (rk == 'add')
+        if rk == 'add':
+            cl['new_member_counted_for_nothing_yet'] = And(Eq(get(o, 'raftMatchIndex')[Node(rid)], 0), get(o, 'raftNextIndex')[Node(rid)] <= last + 2, get(o, 'raftNextIndex')[Node(rid)] >= 1)
     else:
         cl['denied_once'] = rec.calls == [(None, FAIL_REASON.REQUEST_DENIED)]
         cl['member_set_untouched'] = post_members == pre_members and len(tr.registry) == 0
@@ -205,7 +207,7 @@ def M3(inp, n, m, pli):
     cl['member_set_equals_fold_of_log'] = post_members == want
     cl['never_contains_self'] = 'a' not in post_members
     nxt, mt = get(o, 'raftNextIndex'), get(o, 'raftMatchIndex')
-    cl['tables_cover_added_members'] = all(Node(x) in nxt and Node(x) in mt for x in post_members - pre_members)
+    cl['tables_cover_added_members'] = all(Node(x) in nxt and Node(x) in mt and bool(Eq(mt[Node(x)], 0)) for x in post_members - pre_members)
     cl['tables_drop_removed_members'] = all(Node(x) not in nxt and Node(x) not in mt for x in pre_members - post_members)
     # transport registry: net effect of the recorded calls on the pre set gives the post set
     reg = set(pre_members)
